@@ -9,7 +9,7 @@ PID = "C09"
 CLAUSES = ("prediction_not_a_function_of_the_sample",)
 
 
-def make_data(rng, np, n=None, positive=True, sep=None):
+def make_data(rng, np, n=None, positive=True, sep=None, lattice=None):
     r = np.random.default_rng(rng.randrange(2**31))
     n = n or rng.randrange(6, 14)
     k = rng.choice([2, 2, 3])
@@ -19,17 +19,17 @@ def make_data(rng, np, n=None, positive=True, sep=None):
     u = sorted(set(y.tolist()))
     y = np.array([u.index(v) for v in y])
     X = r.normal(size=(n, 2)) + (sep if sep is not None else rng.choice([0.7, 1.5, 3.0])) * y[:, None]
-    if rng.random() < 0.3:
+    if (rng.random() < 0.3) if lattice is None else lattice:
         X = np.round(X)                     # lattice: ties
     if positive:
         X = np.abs(X) + 0.25
     return X, y
 
 
-def build_session(rng, tmp, kind, metric, thorough):
+def build_session(rng, tmp, kind, metric, thorough, lattice=None):
     import numpy as np
     s = SC.Session(rng, tmp)
-    X, Y = make_data(rng, np)
+    X, Y = make_data(rng, np, lattice=lattice, sep=(rng.choice([0.7, 1.5]) if lattice else None))
     n = len(X)
     r = np.random.default_rng(rng.randrange(2**31))
     nq = rng.randrange(6, 12)
@@ -37,6 +37,10 @@ def build_session(rng, tmp, kind, metric, thorough):
     for j in range(nq):
         if rng.random() < 0.5:
             Q[j] = X[rng.randrange(n)]          # copies of training samples
+    if np.all((X - 0.25) == np.round(X - 0.25)):
+        # lattice training data: put the queries on the same lattice (small range), so that a query is often exactly as costly
+        # to reach from two differently labeled samples - whichever rule breaks the tie, it may not look at earlier calls
+        Q = np.abs(np.round(r.normal(size=(nq, 2)) * 1.5 + X.mean(0))) + 0.25
     if rng.random() < 0.5:
         # exact zeros in training and query features: scale-free metrics (canberra, clark, divergence, vicis_*) see a 0/0
         # coordinate there; anything that lets a call leave traces in the features shows up as history dependence
@@ -132,6 +136,12 @@ def run(tier, seed):
         sessions.append((build_session(rng, tmp, kind, rng.choice(mets), thorough), {"kind": kind, "i": i}))
     for i in range(60 if thorough else 10):
         sessions.append((build_knn_pre_session(rng, tmp), {"kind": "knn-pre", "i": i}))
+    # interleaved classes on a small integer lattice, queries on the same lattice: exact cost ties between differently labeled
+    # samples are the rule here, and no tie-break may consult what earlier calls left behind
+    rng2 = random.Random(seed * 1000003 + 909)
+    for i in range(160 if thorough else 40):
+        kind = ["sup", "semi", "sup", "knn", "sup", "semi", "sup", "unsup"][i % 8]
+        sessions.append((build_session(rng2, tmp, kind, ["euclidean", "manhattan", "chebyshev", "squared_euclidean"][i % 4], thorough, lattice=True), {"kind": kind, "i": "lattice-%d" % i}))
     rej = SC.judge(rep, sessions, "c09", None)
     rep.sample({"kind": sessions[2][1], "events": [{k: v for k, v in e.items() if k != "arr"} for e in sessions[2][0].ev[:6]]})
     rep.count("predictions_judged", sum(1 for s, _ in sessions for e in s.ev if e["op"] == "pred"))
